@@ -52,12 +52,20 @@ def expected_outputs(p):
     return out
 
 
-def judge(PP, p, text=None):
-    """(kind or None, detail, n_outputs, hp)"""
+def judge(PP, p, text=None, nesting=None):
+    """(kind or None, detail, n_outputs, hp); nesting != None builds the property through the public
+    constructors with that shape of disjunction tree (left, balanced, random) instead of parsing text"""
     from hpl.rewrite import canonical_form
 
-    text = text or A.render_prop(p)
-    o = hplapi.outcome(PP.parse, text)
+    if nesting is None:
+        text = text or A.render_prop(p)
+        o = hplapi.outcome(PP.parse, text)
+    else:
+        hplapi.NESTING[0] = nesting
+        try:
+            o = hplapi.outcome(hplapi.build_property, p)
+        finally:
+            hplapi.NESTING[0] = 'right'
     if o[0] != 'ok':
         return ('rejected', hplapi.exc_class(o), 0, None)
     hp = o[1]
@@ -106,12 +114,15 @@ def run(ctx):
     B = BUDGET[ctx.tier]
     PP = hplapi.parser('property')
 
-    def handle(p, sig, cell):
+    def handle(p, sig, cell, nesting=None):
         feats = {'api:canonical_form', 'shape:' + p[2][1], 'shape:' + p[3][1]}
         if A.partial_alias_dependency(p):
             feats.add('shape:alias-bound-in-some-alternatives')
+        if nesting is not None:
+            feats.add('shape:api-built')
+            ctx.count('api_built_cases')
         ctx.begin_case(feats)
-        kind, detail, nout, hp = judge(PP, p)
+        kind, detail, nout, hp = judge(PP, p, nesting=nesting)
         if kind == 'rejected':
             ctx.skip('rejected:' + str(detail))
             return
@@ -133,8 +144,9 @@ def run(ctx):
             feats = feats | {'exc:' + detail['error']}
 
         def shrinker():
-            m = shrink.shrink_prop(p, lambda c: judge(PP, c)[0] == kind)
-            k2, d2, _, _ = judge(PP, m)
+            nst = nesting if isinstance(nesting, (str, type(None))) else 'left'
+            m = shrink.shrink_prop(p, lambda c: judge(PP, c, nesting=nst)[0] == kind)
+            k2, d2, _, _ = judge(PP, m, nesting=nst)
             f2 = {'api:canonical_form'}
             if A.partial_alias_dependency(m):
                 f2.add('shape:alias-bound-in-some-alternatives')
@@ -166,6 +178,10 @@ def run(ctx):
                     handle(p, f'{sk}|{pk}|{ws}|' + A.prop_shape(p), rep == 0)
                     if idx % 3 == 0:
                         handle_twin(p, f'{sk}|{pk}|{ws}')
+                    if max(ws) >= 3:
+                        # the same property built through the constructors with another disjunction tree shape
+                        nst = ('left', 'balanced', rng)[idx % 3]
+                        handle(p, f'api|{sk}|{pk}|{ws}|{nst if isinstance(nst, str) else "random"}', False, nesting=nst)
     for n in range(ctx.share(B['random'])):
         pg = gen.PropGen(rng, maxdepth=rng.randrange(1, 4), max_width=6, expose_disj_aliases=0.3)
         sk, pk = gen.pick(rng, gen.SCOPES), gen.pick(rng, gen.PATTERNS)
